@@ -44,6 +44,7 @@ import codecs
 
 import latexcodec  # noqa
 from pybtex.backends import BaseBackend
+from pybtex.exceptions import PybtexError
 
 
 class Backend(BaseBackend):
@@ -68,7 +69,12 @@ class Backend(BaseBackend):
         self.latex_encoding = 'ulatex+' + self.encoding
 
     def format_str(self, str_):
-        return codecs.encode(str_, self.latex_encoding)
+        try:
+            return codecs.encode(str_, self.latex_encoding)
+        except UnicodeEncodeError as error:
+            raise PybtexError(
+                u'cannot write {0!r} in the {1} encoding: {2}'.format(str_, self.encoding, error.reason)
+            )
 
     def format_tag(self, tag_name, text):
         tag = self.tags.get(tag_name)
